@@ -917,3 +917,130 @@ Proof.
     rewrite <- Hc. apply (Hr2 (e, dir) Hin).
   - repeat split; auto.
 Qed.
+
+(* ====================================================================== orderBy on typed keys never raises *)
+Lemma sort_pass_perm cs k rows out : sort_pass cs k rows = Some out -> Permutation out rows.
+Proof. intros H. apply sort_pass_isort in H. subst. apply isort_perm. Qed.
+
+Lemma keys_comparable_typed vs t :
+  Forall (fun v => v_has_ty v t = true) vs -> keys_comparable vs = true.
+Proof.
+  intros H. unfold keys_comparable. apply orb_true_iff. destruct t.
+  - left. apply forallb_forall. rewrite Forall_forall in H. intros v Hv. specialize (H v Hv).
+    destruct v; try reflexivity; discriminate H.
+  - left. apply forallb_forall. rewrite Forall_forall in H. intros v Hv. specialize (H v Hv).
+    destruct v; try reflexivity; discriminate H.
+  - right. apply forallb_forall. rewrite Forall_forall in H. intros v Hv. specialize (H v Hv).
+    destruct v; try reflexivity; discriminate H.
+  - left. apply forallb_forall. rewrite Forall_forall in H. intros v Hv. specialize (H v Hv).
+    destruct v; try reflexivity; discriminate H.
+Qed.
+
+Lemma sort_pass_total G e d t rows :
+  wt false G e t = true -> Forall (fun r => row_ok G r = true) rows ->
+  exists out, sort_pass (map fst G) (e, d) rows = Some out.
+Proof.
+  intros Hw Hr. unfold sort_pass.
+  rewrite (map_opt_total _ (fun r => sql_eval (map fst G) r e)).
+  - rewrite (keys_comparable_typed _ t); [eexists; reflexivity|].
+    rewrite Forall_forall in Hr |- *. intros v Hv. apply in_map_iff in Hv as [r [<- Hin]].
+    apply (eval_sql_typed G r e t (Hr r Hin) Hw).
+  - rewrite Forall_forall in Hr |- *. intros r Hin. apply (eval_sql_typed G r e t (Hr r Hin) Hw).
+Qed.
+
+Lemma sort_flat_total G ks rows :
+  Forall (fun k => exists t, wt false G (fst k) t = true) ks -> Forall (fun r => row_ok G r = true) rows ->
+  exists out, sort_flat (map fst G) ks rows = Some out /\ Permutation out rows.
+Proof.
+  intros Hk Hr. induction Hk as [|[e d] ks [t Hw] Hks IH]; cbn [sort_flat].
+  - exists rows. split; [reflexivity | apply Permutation_refl].
+  - destruct IH as [mid [Em Pm]]. rewrite Em. cbn [fst] in Hw.
+    assert (Hmid : Forall (fun r => row_ok G r = true) mid)
+      by (eapply Permutation_Forall; [apply Permutation_sym, Pm | exact Hr]).
+    destruct (sort_pass_total G e d t mid Hw Hmid) as [out Eo]. exists out. split; [exact Eo|].
+    eapply perm_trans; [eapply sort_pass_perm; exact Eo | exact Pm].
+Qed.
+
+Theorem sort_typed_total : forall split, split_law split -> forall G ks d,
+  cols d = map fst G -> Forall (fun r => row_ok G r = true) (collect d) ->
+  Forall (fun k => exists t, wt false G (fst k) t = true) ks ->
+  exists d', sort_df split ks d = Some d'.
+Proof.
+  intros split L G ks d Hc Hr Hk. pose proof (sort_view split L ks d) as Hv.
+  destruct (sort_flat_total G ks (collect d) Hk Hr) as [out [Eo _]]. rewrite Hc, Eo in Hv.
+  destruct (sort_df split ks d) as [d'|]; [eexists; reflexivity | discriminate Hv].
+Qed.
+
+(* ====================================================================== typed frames stay typed *)
+Lemma map_opt_length {A B} (f : A -> option B) l out : map_opt f l = Some out -> length out = length l.
+Proof.
+  revert out. induction l as [|x l IH]; intros out H; cbn [map_opt] in H.
+  - inversion H; reflexivity.
+  - destruct (f x); [|discriminate H]. destruct (map_opt f l) eqn:E; [|discriminate H].
+    inversion H; subst. cbn. f_equal. apply IH. reflexivity.
+Qed.
+
+Lemma row_ok_combine G r es ts : forall ns,
+  row_ok G r = true -> Forall2 (fun e t => wt false G e t = true) es ts -> length ns = length es ->
+  row_ok (combine ns ts) (map (sql_eval (map fst G) r) es) = true.
+Proof.
+  intros ns Hr H. revert ns. induction H as [|e t es ts Hw Hrest IH]; intros ns Hl.
+  - destruct ns; [reflexivity | discriminate Hl].
+  - destruct ns as [|n ns]; [discriminate Hl|]. cbn [combine map row_ok].
+    destruct (eval_sql_typed G r e t Hr Hw) as [_ T]. rewrite T. cbn [andb]. apply IH. cbn in Hl. lia.
+Qed.
+
+(* select: the new frame is typed by the items' types under their output names *)
+Theorem select_typed : forall G es ts ns d d',
+  cols d = map fst G -> Forall (fun r => row_ok G r = true) (collect d) ->
+  Forall2 (fun e t => wt false G e t = true) es ts -> map_opt out_name es = Some ns ->
+  select es d = Some d' ->
+  cols d' = map fst (combine ns ts) /\ Forall (fun r => row_ok (combine ns ts) r = true) (collect d').
+Proof.
+  intros G es ts ns d d' Hc Hr H2 Hn Hs.
+  assert (He : Forall (fun e => exists t, wt false G e t = true) es).
+  { clear - H2. induction H2; constructor; eauto. }
+  destruct (select_sql G es ns d Hc Hr He Hn) as [d2 [E [C R]]]. rewrite Hs in E. inversion E; subst d2.
+  pose proof (map_opt_length _ _ _ Hn) as Hl.
+  assert (Hlt : length es = length ts) by (clear - H2; induction H2; cbn; congruence).
+  split.
+  - rewrite C. clear - Hl Hlt. revert es ts Hl Hlt. induction ns as [|n ns IH]; intros es ts Hl Hlt.
+    + reflexivity.
+    + destruct es as [|e es]; [discriminate Hl|]. destruct ts as [|t ts]; [discriminate Hlt|].
+      cbn. f_equal. apply (IH es ts); cbn in *; lia.
+  - rewrite R, Hc. rewrite Forall_forall in Hr |- *. intros r Hin. apply in_map_iff in Hin as [r0 [<- Hin0]].
+    apply row_ok_combine; auto.
+Qed.
+
+Lemma subseq_Forall {A} (P : A -> Prop) (l1 l2 : list A) : subseq l1 l2 -> Forall P l2 -> Forall P l1.
+Proof.
+  induction 1 as [|x l1 l2 Hs IH|x l1 l2 Hs IH]; intros H; [constructor| |]; inversion H; subst; auto.
+Qed.
+
+(* filter, orderBy, limit, distinct, dropDuplicates only keep / reorder rows: typed in, typed out *)
+Theorem rows_preserved : forall split, split_law split -> forall (P : row -> Prop) d,
+  Forall P (collect d) ->
+  (forall c d', filter_df c d = Some d' -> Forall P (collect d')) /\
+  (forall ks d', sort_df split ks d = Some d' -> Forall P (collect d')) /\
+  (forall n, Forall P (collect (limit split n d))) /\
+  Forall P (collect (distinct split d)) /\
+  (forall ns d', dropDuplicates split ns d = Some d' -> Forall P (collect d')).
+Proof.
+  intros split L P d HP. repeat split.
+  - intros c d' H. pose proof (filter_view c d) as Hv. rewrite H in Hv. cbn in Hv.
+    destruct (filter_rows (cols d) c (collect d)) as [out|] eqn:E; [|discriminate Hv].
+    cbn in Hv. injection Hv as _ Hv. rewrite Hv. clear - E HP.
+    revert out E. induction (collect d) as [|r rows IH]; intros out E; cbn [filter_rows] in E.
+    + inversion E; constructor.
+    + destruct (eval (cols d) r c); [|discriminate E]. destruct (filter_rows (cols d) c rows); [|discriminate E].
+      inversion HP; subst. inversion E; subst. destruct (truthy s); [constructor|]; auto.
+  - intros ks d' H. pose proof (sort_view split L ks d) as Hv. rewrite H in Hv. cbn in Hv.
+    destruct (sort_flat (cols d) ks (collect d)) as [out|] eqn:E; [|discriminate Hv].
+    cbn in Hv. injection Hv as _ Hv. rewrite Hv. apply sort_flat_multi in E. subst out.
+    clear - HP. induction ks as [|k ks IH]; cbn [map multi_pass]; [exact HP|].
+    eapply Permutation_Forall; [apply Permutation_sym, isort_perm | exact IH].
+  - intros n. destruct (limit_prefix split L n d) as [_ ->]. rewrite <- (firstn_skipn n (collect d)) in HP.
+    apply Forall_app in HP. tauto.
+  - destruct (distinct_spec split L d) as [_ [S _]]. eapply subseq_Forall; eauto.
+  - intros ns d' H. destruct (dropDuplicates_spec split L ns d d' H) as [_ [S _]]. eapply subseq_Forall; eauto.
+Qed.
